@@ -5,6 +5,13 @@ from vlib import Case
 import dnsgen
 
 ID = "C01"
+CLAIMED = True
+LEVEL_TEXT = ("Coq theorems over a Gallina model of DnsIncoming::new, for every list of numbers as datagram: no panic "
+              "(every index/slice in range), no loop beyond explicit fuel = datagram length + 1 per level, output counts "
+              "bounded by the datagram length, names bounded, records read from inside the datagram; the model is "
+              "compared with the real decoder on every run (valid, mutated, hostile grammar, random datagrams; "
+              "exhaustive small alphabet in the thorough tier)")
+TECHNIQUE = "machine-checked proof in Coq (totality and bounds by induction on fuel/offset measures) + model/implementation correspondence"
 THEOREM_FILE = "Props/C01.v"
 LEVELS = "K1-decode (DnsIncoming::new on raw datagrams, full decoded message compared)"
 RULE = ("datagrams from five families: uniformly random, mutations/truncations of valid packets, "
